@@ -1138,6 +1138,74 @@ def gen_restart_while_leaving(seed, mode="loop"):
     return sc
 
 
+def gen_teardown_restart(seed, mode="loop"):
+    """C07: the context is torn down as a whole (m_ctx_deregister after the loop) while 2-5 modules are RUNNING or PAUSED; the
+    stop callbacks that the teardown runs try to start / resume their own module again: every module ends up ZOMBIE, stopped
+    exactly once, the restart is refused, no library descriptor is left behind"""
+    r = random.Random(seed * 251 + 227)
+    sc = Sc(mode, "teardown whose stop callbacks restart their module seed=%d" % seed)
+    driven_skeleton(sc)
+    n = r.randrange(2, 6)
+    for i in range(1, n + 1):
+        sc.mod(i, "td%d" % (r.randrange(1000) * 8 + i), r.choice([0, MOD_NAME_DUP]), r.choice([4, 6, 7]))
+        for k in ("eval", "start"):
+            sc.cb(i, k, "*", [], ret=1)
+        x = r.random()
+        sc.cb(i, "stop", "*", [("start", -1)] if x < 0.4 else [("start", -1), ("resume", -1)] if x < 0.6 else [("resume", -1)] if x < 0.7 else [])
+        sc.cb(i, "evt", "*", [])
+        sc.main += [("reg", i), ("start", i)]
+        if r.random() < 0.25:
+            sc.main.append(("pause", i))
+    steps = [[], []]
+    driven_finish(sc, steps, rng=r, teardown=False)
+    sc.main.append(("ctx_deregister",))
+    sc.main.append(("RELEASE_ALL",))
+    order = list(range(0, n + 1))
+    r.shuffle(order)
+    for s_ in order:
+        sc.main.append(("obs_drop", s_))
+    for u in range(0, sc.meta.get("max_ufd", 16)):
+        sc.main.append(("fd_close", u))
+    sc.main.append(("quiesce",))
+    finalize_main(sc)
+    return sc
+
+
+def gen_start_refused_by_source(seed, mode="loop"):
+    """C01: m_mod_start() of an IDLE / STOPPED module fails because one of its sources cannot be polled (a regular file registered
+    while the module was not running): the refused start changes nothing - the module keeps its state, resume is still refused,
+    and once the source is gone a start succeeds and runs the start callback"""
+    r = random.Random(seed * 257 + 229)
+    sc = Sc(mode, "start refused by an unpollable source seed=%d" % seed)
+    driven_skeleton(sc)
+    T, O = 1, 2
+    sc.mod(T, "ref%d" % r.randrange(100), 0, r.choice([5, 7, 7]))       # (always with an evaluation callback, which says no: the loop itself never tries to start it)
+    sc.mod(O, "other", 0, 0)
+    sc.cb(T, "eval", "*", [], ret=0)
+    sc.cb(T, "start", "*", [], ret=1)
+    sc.cb(T, "stop", "*", [])
+    sc.cb(T, "evt", "*", [])
+    sc.cb(O, "evt", "*", [])
+    sc.main += [("reg", T), ("reg", O), ("start", O), ("fd_open", 1, 2, 0), ("fd_open", 2, 0, 0)]
+    sc.meta["unpollable_fds"] = {1}
+    sc.meta["max_ufd"] = 4
+    from_stopped = r.random() < 0.5
+    if from_stopped:
+        sc.main += [("start", T), ("stop", T)]
+    pre = [("fd_reg", T, 2, 0, sc.ud())] if r.random() < 0.5 else []
+    bad = [("fd_reg", T, 1, r.choice([0, SRC_DUP]), sc.ud())]
+    probe = [("start", T), ("resume", T), ("pause", T), ("start", T)]
+    fix = [("fd_dereg", T, 1), ("start", T), ("tell", O, T, sc.pay(), 0)]
+    if r.random() < 0.5:
+        sc.main += pre + bad + probe
+        steps = [[], [("start", T)], [], fix, [], []]
+    else:
+        steps = [[], pre + bad + probe, [], [("resume", T), ("start", T)], fix, [], []]
+    driven_finish(sc, steps, rng=r)
+    finalize_main(sc)
+    return sc
+
+
 def gen_paused_with_batch_at_quit(seed, mode="loop"):
     """C01: events are being accumulated for a module (batch size not reached, or low-priority only) when it is paused, and the
     loop quits while it is still PAUSED: no handler runs for a module that is not RUNNING - not in the final flush either"""
@@ -2794,7 +2862,7 @@ def gen_ctxlife(seed, mode="loop"):
     return sc
 
 
-def gen_tokenbucket(seed, mode="loop"):
+def gen_tokenbucket(seed, mode="loop", refused=False):
     """C18: bursts of cheap token-consuming calls on a throttled module from driver steps (the loop keeps refilling), re-
     configuration with user timers registered, exhaustion followed by a long pause and a probe, rate 0 and stop/start"""
     r = random.Random(seed * 53 + 31)
@@ -2838,7 +2906,13 @@ def gen_tokenbucket(seed, mode="loop"):
         steps.append([cheap() for _ in range(r.randrange(1, 6))])
         rate = lo_r
     steps.append([("tb", T, rate, burst)])
+    r2 = random.Random(seed * 241 + 223)
     for phase in range(r.randrange(2, 7)):
+        if refused and r2.random() < 0.5:
+            # a re-configuration refused for its arguments (rate above 10^9) changes nothing: the old limit stays in force
+            steps.append([("tb", T, r2.choice([1000000001, 2000000000, 4294967295]), r2.choice([1, 5, 1000]))]
+                         + [cheap() for _ in range(3 * burst + 22)])
+            steps.append([("sleep", r2.choice([0, 500]))])
         x = r.random()
         if x < 0.45:
             steps.append([cheap() for _ in range(r.randrange(1, 3 * burst + 8))])
